@@ -7,6 +7,7 @@ type envModel struct {
 	i       *interpreter
 	clockN  int
 	lastNow *Term
+	clk     *Term
 	sleeps  []value
 	files   map[string]*fileState
 	fsLog   []string
